@@ -10,9 +10,9 @@ import (
 )
 
 func c19Main(r *hx.Run) {
-	depth := 8
+	depth := 12
 	if r.Thorough() {
-		depth = 11
+		depth = 14
 	}
 	ms := []hx.GModel{{Name: "avahi", Build: mdnsscen.Build(), MaxDepth: depth, MaxStates: 300000}}
 	var scens []hx.Scenario
